@@ -83,17 +83,35 @@ class LoopSpec:
     fresh value); `inv(it, env, idx)` returns the z3 invariant (idx: z3 int, the number of completed iterations for a
     `for ... in range(n)` loop, None for a while loop); optional `variant(it, env)` (z3 int, must decrease, >= 0)."""
 
-    def __init__(self, vars, inv, variant=None):
+    def __init__(self, vars, inv, variant=None, havoc_assigned=False, on_entry=None):
         self.vars, self.inv, self.variant = vars, inv, variant
+        self.on_entry = on_entry  # callable(it, env): ghost values captured from the state in which the loop is entered
+        # havoc_assigned: every local name the loop body assigns (and `vars` does not mention) is replaced by a fresh opaque value as
+        # well, so that the contract does not depend on how the body names its temporaries
+        self.havoc_assigned = havoc_assigned
 
-    def havoc(self, it, env, tag):
-        for name, kind in self.vars.items():
+    def havoc(self, it, env, tag, body=None):
+        vars_ = self.vars(it, env) if callable(self.vars) else self.vars  # callable: names derived from the loop node (it.loop_node)
+        for name, kind in vars_.items():
             if callable(kind):
                 r = kind(it, env, tag)
                 if r is not None and "." not in name:
                     env[name] = r
             else:
                 env[name] = it.w.fresh(f"{name}@{tag}", kind)
+        if self.havoc_assigned and body is not None:
+            for k, name in enumerate(sorted(_assigned_names(body))):
+                if name not in vars_:
+                    env[name] = it.w.fresh(f"tmp{k}@{tag}", "val")
+
+
+def _assigned_names(body):
+    out = set()
+    for st in body:
+        for n in ast.walk(st):
+            if isinstance(n, ast.Name) and isinstance(n.ctx, ast.Store):
+                out.add(n.id)
+    return out
 
 
 class ModuleRef:
@@ -1138,14 +1156,17 @@ class Interp:
             return it.z_order_probe(self, s, env)
         seq = self.concrete_iter(it)
         if seq is None:
-            spec = self.loop_specs.get(("for", ast.unparse(s.iter), ast.unparse(s.target)))
+            spec = self.loop_specs.get(("for", ast.unparse(s.iter), ast.unparse(s.target))) or self.loop_specs.get(("for", ast.unparse(s.iter), "*"))
             if spec is not None and isinstance(it, SymRange) and isinstance(s.target, ast.Name):
                 n = it.n
                 tag = f"L{len(self.obligations)}"
+                self.loop_node = s
+                if spec.on_entry is not None:
+                    spec.on_entry(self, env)
                 self.oblige(f"invariant holds on entry of `for {ast.unparse(s.target)} in {ast.unparse(s.iter)}`", spec.inv(self, env, z3.IntVal(0)))
                 # arbitrary iteration
                 saved = dict(env)
-                spec.havoc(self, env, tag + "a")
+                spec.havoc(self, env, tag + "a", s.body)
                 i = self.w.fresh(f"{s.target.id}@{tag}", "int")
                 self.p.pc.append(z3.And(i.e >= 0, i.e < n))
                 self.p.pc.append(spec.inv(self, env, i.e))
@@ -1159,7 +1180,7 @@ class Interp:
                     pass
                 self.oblige(f"invariant preserved by `for {ast.unparse(s.target)} in {ast.unparse(s.iter)}`", spec.inv(self, env, i.e + 1))
                 # after the loop
-                spec.havoc(self, env, tag + "z")
+                spec.havoc(self, env, tag + "z", s.body)
                 self.p.pc.append(spec.inv(self, env, z3.If(n > 0, n, 0)))
                 env[s.target.id] = self.w.fresh(f"{s.target.id}@{tag}end", "int")
                 return
@@ -1180,8 +1201,17 @@ class Interp:
 
     def exec_while(self, s, env):
         spec = self.loop_specs.get(("while", ast.unparse(s.test)))
+        if spec is None:
+            # structural keys: ("while", predicate(ast.While) -> bool): contracts that do not depend on the names of the loop's variables
+            for k, v in self.loop_specs.items():
+                if k[0] == "while" and callable(k[1]) and k[1](s):
+                    spec = v
+                    break
         if spec is not None:
             tag = f"W{len(self.obligations)}"
+            self.loop_node = s
+            if spec.on_entry is not None:
+                spec.on_entry(self, env)
             self.oblige(f"invariant holds on entry of `while {ast.unparse(s.test)}`", spec.inv(self, env, None))
             spec.havoc(self, env, tag + "a")
             self.p.pc.append(spec.inv(self, env, None))
@@ -1463,6 +1493,11 @@ def _int(it, args, kwargs):
             return v
         if v.kind == "bool":
             return Sym(z3.If(v.e, 1, 0), "int")
+        if v.kind == "real":
+            if "int" in v.meta:  # an integer-valued real (ceil / round results keep their integer term)
+                return Sym(v.meta["int"], "int")
+            # Python's int() truncates towards zero; z3's ToInt is the floor
+            return Sym(z3.If(v.e >= 0, z3.ToInt(v.e), -z3.ToInt(-v.e)), "int")
         return it.w.uf("int", [v], "int")
     return int(v)
 
